@@ -535,6 +535,33 @@ func runC20(ctx *core.Ctx) {
 			ctx.OK("S10", "goproxytest.readModList#no-cutset-trim", rl.Pos(), "no multi-byte cut-set trimming of file names")
 		}
 	}
+	// ---- S11: once the request is decoded, only the store decides
+	ctx.Rule("S11", "nothing is refused on the look of the version: every return of the handler that is reached after the version was decoded successfully lies behind the archive look-up (a filter such as 'canonical versions only' answers 404 for stored +incompatible versions that the list advertises)", 1)
+	if h := p.Func("goproxytest", "(*Server).handler"); h != nil {
+		hg := graph(p, h)
+		uvs := hg.Calls("golang.org/x/mod/module.UnescapeVersion")
+		ras := hg.Calls("(*" + gpPkg + ".Server).readArchive")
+		n := 0
+		for _, uv := range uvs {
+			uerr := ssax.Extracted(uv, 1)
+			for _, r := range hg.Returns() {
+				if !hg.Dominates(uv, r) || ssax.KnownNil(hg.FactsAtInstr(r), uerr, false) {
+					continue
+				}
+				n++
+				behind := false
+				for _, ra := range ras {
+					if hg.Dominates(ra, r) {
+						behind = true
+					}
+				}
+				ctx.Check(behind, "S11", "goproxytest.handler#after-decode"+itoa(n), r.Pos(), "this return, reached with the version decoded, comes after the archive look-up")
+			}
+		}
+		if n == 0 {
+			ctx.Note("S11", "goproxytest.handler#after-decode", h.Pos(), "no return found behind the version decoding; clause not decided")
+		}
+	}
 	// ---- S7: the zip cache is keyed by the archive it packs
 	if h := p.Func("goproxytest", "(*Server).handler"); h != nil {
 		hg := graph(p, h)
